@@ -487,6 +487,7 @@ func checkC02(w *World, c *Check, tier string) {
 	checkEscTable(w, c)
 	checkNamesDupKind(w, c, t)
 	checkBraces(w, c)
+	checkEscaper(w, c, "C02.escaper")
 }
 
 func checkRaw(w *World, c *Check, t *tables) {
